@@ -4,6 +4,7 @@ CONSTANTS
   NCalls = 2
   NGC = 2
   IncLate = FALSE
+  NoCountRecheck = FALSE
   NoRecheck = FALSE
 INVARIANTS NoUseAfterClose InuseExact CurrentOpen NoLeak MutexSane
 PROPERTIES Terminates
